@@ -22,12 +22,14 @@ if os.environ.get("NGS_VERIF_MONITORS") == "1" and os.environ.get("NGS_VERIF_CHI
         contracts.attach_downscale_contracts()
         from neuroglancer_scripts import precomputed_io
         _events = {"write_chunk": 0, "read_chunk": 0}
+        _written = []
         _ow, _or = precomputed_io.PrecomputedIO.write_chunk, \
             precomputed_io.PrecomputedIO.read_chunk
 
         def _w(self, chunk, scale_key, chunk_coords):
+            res = _ow(self, chunk, scale_key, chunk_coords)
             _events["write_chunk"] += 1
-            return _ow(self, chunk, scale_key, chunk_coords)
+            return res
 
         def _r(self, scale_key, chunk_coords):
             _events["read_chunk"] += 1
@@ -35,10 +37,26 @@ if os.environ.get("NGS_VERIF_MONITORS") == "1" and os.environ.get("NGS_VERIF_CHI
         precomputed_io.PrecomputedIO.write_chunk = _w
         precomputed_io.PrecomputedIO.read_chunk = _r
 
+        # chunks that really reach the storage layer (accessor boundary)
+        from neuroglancer_scripts import file_accessor, sharded_file_accessor
+
+        def _wrap_store(cls):
+            orig = cls.store_chunk
+
+            def store_chunk(self, buf, key, chunk_coords, *a, **k):
+                res = orig(self, buf, key, chunk_coords, *a, **k)
+                if len(_written) < 200000:
+                    _written.append([key, [int(c) for c in chunk_coords]])
+                return res
+            cls.store_chunk = store_chunk
+        _wrap_store(file_accessor.FileAccessor)
+        _wrap_store(sharded_file_accessor.ShardedFileAccessor)
+
         def _report():
             try:
                 with open(os.environ["NGS_VERIF_CHILD_REPORT"], "a") as f:
                     f.write(json.dumps({"argv": sys.argv[:1], "events": _events,
+                                        "written": _written,
                                         "contracts": dict(contracts.COUNTS)}) + "\n")
             except Exception:
                 pass
